@@ -1,6 +1,8 @@
 package main
 
 import (
+	"reflect"
+	"fmt"
 	"math/big"
 	"math/rand"
 	"strconv"
@@ -186,6 +188,56 @@ func c10Eval(doc map[string]any, toks []string) Case {
 		Fail: fail, Nontrivial: len(toks) >= 2}
 }
 
+// IsNumeric is exactly "canonical array index that fits the machine word"
+func c10IsNumeric(t string) Case {
+	var n int
+	var ok bool
+	var fail []string
+	if pn := guard(func() { n, ok = patch.PathSegment(t).IsNumeric() }); pn != "" {
+		fail = append(fail, "panic in IsNumeric: "+pn)
+	}
+	wi, wok := canonIndex(t)
+	if ok != wok || (ok && n != wi) {
+		fail = append(fail, fmt.Sprintf("PathSegment(%q).IsNumeric() = (%d,%v), expected (%d,%v)", t, n, ok, wi, wok))
+	}
+	return Case{Kind: "isnumeric", Desc: map[string]any{"token": t, "n": n, "ok": ok}, Fail: fail, Nontrivial: ok, Key: "isnum" + t}
+}
+
+// parsing is a function of the string: what a caller does to an earlier result cannot matter
+func c10ParseTwice(s string) Case {
+	var fail []string
+	if pn := guard(func() {
+		p1, e1 := patch.ParsePath(s)
+		if e1 != nil {
+			return
+		}
+		want := append([]string{}, segStrings(p1)...)
+		for i := range p1 {
+			p1[i] = patch.PathSegment("scribbled")
+		}
+		_ = append(p1.Parent(), "sibling")
+		p2, e2 := patch.ParsePath(s)
+		if e2 != nil || !reflect.DeepEqual(append([]string{}, segStrings(p2)...), want) {
+			fail = append(fail, fmt.Sprintf("ParsePath(%q) after the caller changed an earlier result: %v, expected %v", s, segStrings(p2), want))
+		}
+		if e2 == nil && p2.String() != s && len(want) > 0 {
+			// (only canonical spellings round-trip; this string came from String())
+			fail = append(fail, "second parse does not print back")
+		}
+	}); pn != "" {
+		fail = append(fail, "panic: "+pn)
+	}
+	return Case{Kind: "parse-twice", Desc: map[string]any{"s": s}, Fail: fail, Nontrivial: true, Key: "twice" + s}
+}
+
+func segStrings(p patch.Path) []string {
+	out := make([]string, len(p))
+	for i, s := range p {
+		out[i] = string(s)
+	}
+	return out
+}
+
 func c10Parent(toks []string) Case {
 	p := make(patch.Path, 0, len(toks))
 	for _, t := range toks {
@@ -287,7 +339,7 @@ func c10EnumString(i int) string {
 func init() {
 	register(&Prop{
 		ID:   "C10",
-		Rule: "kinds: print (random token sequences over {/,~,0,1,a,é,世,empty}), parse (exhaustive strings over {/,~,0,1,a} in length-lex order, then random incl. multi-byte), eval (generated documents x pointers aimed at existing locations, neighbours, non-numeric/negative/non-canonical tokens and all-digit tokens beyond 2^63 and 2^64 (which wrap to existing indexes in machine arithmetic) on lists), parent. Non-trivial: token/string contains '~' or '/', pointer has >= 2 tokens. Distinct by Gallina term.",
+		Rule: "kinds: print (random token sequences over {/,~,0,1,a,é,世,empty}), parse (exhaustive strings over {/,~,0,1,a} in length-lex order, then random incl. multi-byte), isnumeric (direct probes of PathSegment.IsNumeric), parse-twice (a parsed path is scribbled on, then the same string parsed again), eval (a 260-item list x one-byte tokens; generated documents x pointers aimed at existing locations, neighbours, non-numeric/negative/non-canonical tokens and all-digit tokens beyond 2^63 and 2^64 (which wrap to existing indexes in machine arithmetic) on lists), parent. Non-trivial: token/string contains '~' or '/', pointer has >= 2 tokens. Distinct by Gallina term.",
 		Corpus: func() []Case {
 			return []Case{
 				c10Eval(map[string]any{"a": []any{1, 2}}, []string{"a", "x", "0"}), // skip of non-numeric token
@@ -300,6 +352,26 @@ func init() {
 			}
 		},
 		Gen: func(r *rand.Rand, tier string, idx int) Case {
+			if idx%16 == 13 {
+				toks := []string{"a", "A", ":", "~", "/", "0", "9", "10", "07", "-", "", "é", "١", "255", "18446744073709551616", "9223372036854775807"}
+				return c10IsNumeric(toks[(idx/16)%len(toks)])
+			}
+			if idx%16 == 9 {
+				n := 1 + r.Intn(3)
+				toks := make(patch.Path, 0, n)
+				for i := 0; i < n; i++ {
+					toks = append(toks, patch.PathSegment(c10Token(r)))
+				}
+				return c10ParseTwice(toks.String())
+			}
+			if idx%16 == 5 { // a list long enough for a one-byte token read as its character code to land inside
+				l := make([]any, 260)
+				for i := range l {
+					l[i] = i
+				}
+				doc := map[string]any{"long": l}
+				return c10Eval(doc, []string{"long", []string{"a", "A", ":", "~", "/", "é", "z", "Z", "0", "259", "260"}[r.Intn(11)]})
+			}
 			switch idx % 4 {
 			case 0:
 				n := r.Intn(4)
